@@ -882,7 +882,7 @@ def splice(u, ex, probe=False, mutant=None):
     undeclared = [k + 1 for k in range(len(loops)) if (k + 1) not in u.loops]
     mask = rl.code_mask(body)
     for where, nth, anchor, lines in u.anchors:
-        ms = re.match(r'@(before-loop|after-loop|loop-body)\s+(\d+)$', anchor)
+        ms = re.match(r'@(before-loop|after-loop|loop-body|loop-end)\s+(\d+)$', anchor)
         if ms:
             k = int(ms.group(2))
             if k < 1 or k > len(loops):
@@ -895,6 +895,10 @@ def splice(u, ex, probe=False, mutant=None):
                 le = body.find('\n', brace)
                 le = len(body) if le < 0 else le
                 inserts.append((le, '\n' + '\n'.join(lines), 'ghost'))
+            elif ms.group(1) == 'loop-end':
+                # last position inside the loop body (just before its closing brace)
+                close = rl.match_bracket(body, brace, mask)
+                inserts.append((close, '\n' + '\n'.join(lines) + '\n', 'ghost'))
             else:
                 close = rl.match_bracket(body, brace, mask)
                 le = body.find('\n', close)
